@@ -843,12 +843,21 @@ func (s *Service) TokenReset(subject string, tokenID ...string) {
 	})
 }
 
+// defaultOwnedPatterns returns the patterns owned by default: the service path
+// and everything below it, or everything if the service has no path.
+func (s *Service) defaultOwnedPatterns() []string {
+	if s.Mux.path == "" {
+		return []string{">"}
+	}
+	return []string{s.Mux.path, mergePattern(s.Mux.path, ">")}
+}
+
 func (s *Service) setDefaultOwnership() {
 	if s.resetResources == nil {
 		if s.Contains(func(h Handler) bool {
 			return h.Get != nil || len(h.Call) > 0 || len(h.Auth) > 0 || h.New != nil
 		}) {
-			s.resetResources = []string{s.Mux.path, mergePattern(s.Mux.path, ">")}
+			s.resetResources = s.defaultOwnedPatterns()
 		} else {
 			s.resetResources = []string{}
 		}
@@ -858,7 +867,7 @@ func (s *Service) setDefaultOwnership() {
 		if s.Contains(func(h Handler) bool {
 			return h.Access != nil
 		}) {
-			s.resetAccess = []string{s.Mux.path, mergePattern(s.Mux.path, ">")}
+			s.resetAccess = s.defaultOwnedPatterns()
 		} else {
 			s.resetAccess = []string{}
 		}
